@@ -194,6 +194,32 @@ def rule_MP3(rep, prog):
                 sample={"loads": len(pl)})
 
 
+def rule_TB5(rep, prog, srcdir):
+    rid = rep.rule("C15-TB5", "descriptor wiring of the three custom data source types: DISPATCH_SOURCE_TYPE_DATA_ADD / _OR / _REPLACE carry the filter "
+                   "DISPATCH_EVFILT_CUSTOM_ADD / _OR / _REPLACE that dispatch_source_merge_data switches on (three distinct filters): a DATA_OR source wired to the "
+                   "ADD filter coalesces overlapping masks by addition and hands the handler bits nobody merged", floor=3)
+    k = consts.get(["DISPATCH_EVFILT_CUSTOM_ADD", "DISPATCH_EVFILT_CUSTOM_OR", "DISPATCH_EVFILT_CUSTOM_REPLACE"], srcdir=srcdir, unit="event/event")
+    seen = {}
+    for nm, cn in (("_dispatch_source_type_data_add", "DISPATCH_EVFILT_CUSTOM_ADD"), ("_dispatch_source_type_data_or", "DISPATCH_EVFILT_CUSTOM_OR"),
+                   ("_dispatch_source_type_data_replace", "DISPATCH_EVFILT_CUSTOM_REPLACE")):
+        g = prog.global_(nm)
+        if not g or not g.get("init"):
+            rep.unknown(rid, "anchor vanished: source type descriptor %s not found" % nm)
+            continue
+        # dst_filter is the first integer member (after the kind string)
+        ints = [x for x in g["init"] if isinstance(x, int)]
+        flt = ints[0] if ints else None
+        want = k[cn]
+        if want >> 63:
+            want -= 1 << 64
+        wv = want & 0xff if flt is not None and 0 <= flt < 256 else want
+        rep.require(rid, flt is not None and (flt == want or flt == wv or (flt - 256) == want), "src/event/event.c", nm, "data-source-filter:%s" % nm,
+                    "%s has dst_filter %s, expected %s (%s)" % (nm, flt, cn, want), sample={"type": nm, "filter": cn})
+        seen[nm] = flt
+    rep.require(rid, len(set(seen.values())) == len(seen) == 3, "src/event/event.c", "_dispatch_source_type_data_*", "data-source-filters-distinct",
+                "the three custom data source types do not carry three distinct filters: %s" % seen, sample={"filters": {k_: str(v) for k_, v in seen.items()}})
+
+
 def rule_SB4(rep, prog):
     rid = rep.rule("C15-SB4", "no re-entrancy: sources are invoked through _dispatch_queue_class_invoke (serial drain lock, C02) and are created with width 1", floor=2)
     fn = prog.fn("_dispatch_source_invoke")
@@ -223,12 +249,25 @@ def run(rep, tier="quick", srcdir=None, only=None):
         rule_MP3(rep, prog)
     if want("C15-SB4"):
         rule_SB4(rep, prog)
+    if want("C15-TB5"):
+        rule_TB5(rep, prog, srcdir)
     if want("C06-AI3"):
         # "merges made while the source is suspended are delivered after the matching resume": a source is a lane, its suspension accounting is the
         # queue's (shared with C06)
         from . import C06
         from dqsa import trans as _trans
         C06.rule_AI3(rep, prog, Q(srcdir), _trans.Extractor(prog, tier))
+    if want("C01-TR1"):
+        # a merge that lands while a client thread holds the source's drain lock (a handler setter, cancel_and_wait) only sets DIRTY: the unlock must notice it
+        # and re-evaluate the source through its wakeup function, or the merged value stays pending with nobody scheduled to deliver it (shared with C01)
+        from . import C01
+        from dqsa import trans as _trans
+        ex = _trans.Extractor(prog, tier)
+        ex.compute_argbits()
+        ts = []
+        for f_ in sorted(prog.all_functions(), key=lambda f: f.name):
+            ts.extend(ex.transitions(f_, DQ_STATE, plain=True))
+        C01.rule_TR1(rep, prog, ex, Q(srcdir), ts)
 
 
 MANIFEST = {
